@@ -229,7 +229,7 @@ def run(ctx):
     res.rule = ('seeded schedules of deliver / duplicate (immediate and late copies) / drop / reorder over the authentic traffic of '
                 'IKE_AUTH, CREATE_CHILD_SA new / rekey / IKE rekey, INFORMATIONAL delete / DPD on both roles, with INVALID_KE and '
                 'rekey variants; oracle after every operation; distinct = distinct schedule')
-    S.campaign(ctx, res, ORACLES, ctx.scale(30, 500), ctx.scale(50, 100), variants=VARIANTS, dup=0.35, loss=0.08)
+    S.campaign(ctx, res, ORACLES, ctx.scale(120, 1500), ctx.scale(50, 100), variants=VARIANTS, dup=0.35, loss=0.08)
     directed_rekeys(ctx, res)
     return res
 
